@@ -74,7 +74,7 @@ Proof.
   destruct (run_hooks EvHookB (indexed (p_before p)) st_init) as [[evB st1] xB] eqn:HB.
   destruct (match xB with Some x => ([], st1, inr x) | None => route_and_call (p_routing p) st1 end)
     as [[evM st2] resM] eqn:HM.
-  destruct (run_hooks EvHookA (rev (indexed (p_after p))) st2) as [[evA st3] xA] eqn:HA.
+  destruct (run_hooks EvHookA (after_call_list p) st2) as [[evA st3] xA] eqn:HA.
   intros H; inversion H; subst ev.
   destruct (run_hooks_events _ _ _ _ _ _ HB) as [ib ->].
   destruct (run_hooks_events _ _ _ _ _ _ HA) as [ia ->].
@@ -441,6 +441,7 @@ Definition wf_mut (m : mut) : Prop :=
   | MStatus c l => Pst c l
   | MSetHeader n v | MAddHeader n v => Pn n /\ Pv v
   | MSetCookie _ v => Pv v
+  | MHook _ => True
   end.
 Definition wf_hres (h : hres) : Prop :=
   match h with HRet o => wf_out o | HRaiseHttp _ r => wf_resp r | HRaiseExc _ => True end.
@@ -513,11 +514,12 @@ Qed.
 
 Lemma st_ok_mut m st : wf_mut m -> st_ok st -> st_ok (apply_mut m st).
 Proof.
-  intros Hm [S1 [S2 S3]]. destruct m as [c l|n v|n v|n v]; simpl in *; unfold st_ok; simpl.
+  intros Hm [S1 [S2 S3]]. destruct m as [c l|n v|n v|n v|e]; simpl in *; unfold st_ok; simpl.
   - auto.
   - destruct Hm. repeat split; auto using hs_ok_set.
   - destruct Hm. repeat split; auto using hs_ok_append.
   - repeat split; auto using cs_ok_set.
+  - auto.
 Qed.
 
 Lemma st_ok_muts ms : forall st, Forall wf_mut ms -> st_ok st -> st_ok (apply_muts ms st).
@@ -606,6 +608,27 @@ Qed.
 Lemma Forall_rev' {A} (P : A -> Prop) l : Forall P l -> Forall P (rev l).
 Proof. intros H. apply Forall_forall. intros x Hx. rewrite Forall_forall in H. apply H. now apply in_rev. Qed.
 
+Lemma remove_first_Forall (P : nat * hprog -> Prop) j l : Forall P l -> Forall P (remove_first j l).
+Proof.
+  induction l as [|[i h] t IH]; intros H; simpl; [constructor|].
+  inversion H; subst. destruct (Nat.eqb i j); [assumption|]. constructor; auto.
+Qed.
+
+Lemma after_call_list_ok p :
+  Forall wf_hprog (p_after p) -> Forall (fun ih => wf_hprog (snd ih)) (after_call_list p).
+Proof.
+  intros Ha. unfold after_call_list.
+  assert (H0 : Forall (fun ih : nat * hprog => wf_hprog (snd ih)) (rev (indexed (p_after p))))
+    by (apply Forall_rev', indexed_ok; exact Ha).
+  revert H0. generalize (rev (indexed (p_after p))).
+  generalize (edits_of (ran_prefix (p_before p)
+                        ++ (if all_ret (p_before p) then routing_progs (p_routing p) else []))).
+  intros es. induction es as [|e t IH]; intros l Hl; simpl; [exact Hl|].
+  apply IH. destruct e as [[|] j|[|] j]; simpl; try exact Hl.
+  - now apply remove_first_Forall.
+  - constructor; [|exact Hl]. simpl. split; [constructor|exact I].
+Qed.
+
 Lemma handle_ok p ev st o : wf_program p -> handle p = (ev, st, o) -> st_ok st /\ wf_out o.
 Proof.
   intros [Hb [Ha Hr]]. unfold handle, handle_from.
@@ -618,8 +641,8 @@ Proof.
     - inversion HM; subst. split; [exact S1|]. destruct x; exact X1.
     - eapply route_and_call_ok; eassumption. }
   destruct S2 as [S2 R2].
-  destruct (run_hooks EvHookA (rev (indexed (p_after p))) st2) as [[evA st3] xA] eqn:HA.
-  destruct (run_hooks_ok _ _ _ _ _ _ (Forall_rev' _ _ (indexed_ok _ _ Ha)) S2 HA) as [S3 X3].
+  destruct (run_hooks EvHookA (after_call_list p) st2) as [[evA st3] xA] eqn:HA.
+  destruct (run_hooks_ok _ _ _ _ _ _ (after_call_list_ok p Ha) S2 HA) as [S3 X3].
   intros H. inversion H; subst. split; [exact S3|].
   destruct xA as [[e r|j]|].
   - exact X3.
